@@ -134,6 +134,11 @@ func (c *gctx) class() *Expr {
 		// runes whose case mapping crosses the ASCII boundary, and range edges
 		e.Chars = append(e.Chars, []rune{0x212a, 0x130, 0x17f, 0x7f, 0x80, 0xfffd}[c.r.Intn(6)])
 	}
+	if c.cfg.Wide && c.cfg.Fold && c.chance(1, 2) {
+		// letters whose simple case folding leaves ASCII, in a case-insensitive class
+		e.Fold = true
+		e.Chars = append(e.Chars, []rune{'k', 's', 'K', 0x212a, 0x212a, 0x17f, 0x130, 0x130}[c.r.Intn(8)])
+	}
 	if c.cfg.Fold && c.chance(1, 5) {
 		e.Fold = true
 		for i, ch := range e.Chars {
@@ -735,4 +740,51 @@ func Mutate(r Rand, in []byte, maxLen int) []byte {
 		out = []byte(string(b))
 	}
 	return out
+}
+
+// GenerateNullCycle builds small grammars made only of what the nullability
+// and left-recursion analyses look at: every rule is a choice of short
+// sequences of rule references (to any rule), optional or empty terminals
+// and plain terminals. Tool world only: such parsers are never run.
+func GenerateNullCycle(r Rand, caseNames bool) *Grammar {
+	names := []string{"Start", "Aa", "Bb", "Cc", "Dd"}
+	if caseNames {
+		names = []string{"Start", "Aa", "aa", "AA", "Bb"}
+	}
+	n := 3 + r.Intn(3)
+	names = names[:n]
+	g := &Grammar{}
+	term := func() *Expr { return &Expr{Kind: Lit, Text: string(rune('a' + r.Intn(5)))} }
+	for i := 0; i < n; i++ {
+		ch := &Expr{Kind: Choice}
+		for a := 1 + r.Intn(3); a > 0; a-- {
+			sq := &Expr{Kind: Seq}
+			for k := 1 + r.Intn(3); k > 0; k-- {
+				switch x := r.Intn(20); {
+				case x < 12:
+					sq.Subs = append(sq.Subs, &Expr{Kind: Ref, Name: names[r.Intn(n)]})
+				case x < 15:
+					sq.Subs = append(sq.Subs, &Expr{Kind: Opt, Subs: []*Expr{term()}})
+				case x < 16:
+					sq.Subs = append(sq.Subs, &Expr{Kind: Lit, Text: ""})
+				case x < 17:
+					sq.Subs = append(sq.Subs, &Expr{Kind: Star, Subs: []*Expr{term()}})
+				default:
+					sq.Subs = append(sq.Subs, term())
+				}
+			}
+			if len(sq.Subs) == 1 {
+				ch.Subs = append(ch.Subs, sq.Subs[0])
+			} else {
+				ch.Subs = append(ch.Subs, sq)
+			}
+		}
+		e := ch
+		if len(ch.Subs) == 1 {
+			e = ch.Subs[0]
+		}
+		g.Rules = append(g.Rules, &Rule{Name: names[i], Expr: e})
+	}
+	g.Finish()
+	return g
 }
